@@ -7,7 +7,8 @@
    exact-rational twins and hold without the size guards of the float theorems. *)
 From Coq Require Import Reals Floats.
 From SG Require Import Base.Prelude Base.GoInt Base.GoFloat Model.Adaptive Model.WarmUp
-  Proofs.AdaptiveProofs Proofs.WarmUpProofs Proofs.C11Float Proofs.AdaptiveFloat Proofs.WarmUpFloat.
+  Proofs.AdaptiveProofs Proofs.WarmUpProofs Proofs.C11Float Proofs.AdaptiveFloat Proofs.WarmUpFloat
+  Model.Throttle Model.WarmUpThrottle Proofs.WarmUpThrottleProofs.
 #[local] Open Scope Z_scope.
 
 (* ===================== memory-adaptive rule ===================== *)
@@ -206,6 +207,25 @@ Theorem C11_wu_inf_threshold_finite :
   admitted_count (wrun (mk_wcfg infinity 10 3) winit (repeat (t_start, 1) 30)) = 30.
 Proof. exact inf_threshold. Qed.
 
+(* A warm-up rule may carry either control behaviour.  With ControlBehavior = Throttling the
+   calculator is the same function of the admitted history: the effective threshold handed to the
+   throttling checker is calc's, and the bucket evolves exactly as under the reject checker - so
+   every warm-up theorem above (envelope, cold start, reaches full, finite) is about Throttling
+   rules as well; only which requests are admitted differs (paced by C10's checker). *)
+Theorem C11_wu_throttling_same_calculator : forall c maxq_ms st last now b,
+  let r := wstep_thr c maxq_ms st last now b in
+  let q := wstep c st now b in
+  fst (fst (snd r)) = snd (calc c st now) /\
+  fst (fst (snd r)) = fst (snd q) /\
+  stored (fst (fst r)) = stored (fst q) /\
+  last_filled (fst (fst r)) = last_filled (fst q).
+Proof. exact wstep_thr_calculator. Qed.
+
+(* threshold 12, period 3 s, cold factor 3, 14 evenly spaced requests per second for 10 s under a
+   Throttling rule: some allowed value is below 5 (cold) and some is exactly 12 (full) *)
+Example C11_wu_throttling_nonvacuous : demo_thr_statement.
+Proof. exact demo_thr_warms_up. Qed.
+
 Print Assumptions C11_mem_low.
 Print Assumptions C11_mem_not_retrieved.
 Print Assumptions C11_mem_high.
@@ -233,3 +253,4 @@ Print Assumptions C11_wu_not_starved_eq_refuted.
 Print Assumptions C11_wu_cold_start_refuted.
 Print Assumptions C11_wu_nan_invalid.
 Print Assumptions C11_wu_inf_threshold_finite.
+Print Assumptions C11_wu_throttling_same_calculator.
